@@ -695,6 +695,26 @@ func (s Emitter) WriteExpression(output io.Writer, expression cypher.Expression)
 		}
 
 	case *cypher.KindMatcher:
+		if typedExpression.IsExclusive && len(typedExpression.Kinds) > 1 {
+			// An exclusive matcher requires every kind: n:A:B. Joining the kinds with "or" would turn the
+			// all-of test into an any-of test.
+			if err := s.WriteExpression(output, typedExpression.Reference); err != nil {
+				return err
+			}
+
+			for _, matcher := range typedExpression.Kinds {
+				if _, err := io.WriteString(output, ":"); err != nil {
+					return err
+				}
+
+				if _, err := io.WriteString(output, matcher.String()); err != nil {
+					return err
+				}
+			}
+
+			return nil
+		}
+
 		if len(typedExpression.Kinds) > 1 {
 			if _, err := io.WriteString(output, "("); err != nil {
 				return err
